@@ -107,7 +107,28 @@ func unwrap(v interface{}) interface{} {
 // PrepareQuery checks that the given selectionSet matches the schema typ, and
 // parses the args in selectionSet
 func PrepareQuery(ctx context.Context, typ Type, selectionSet *SelectionSet) error {
+	return prepareQuery(ctx, typ, selectionSet, make(map[preparedKey]struct{}))
+}
+
+// preparedKey identifies a selection set validated against a type.
+type preparedKey struct {
+	typ          Type
+	selectionSet *SelectionSet
+}
+
+// prepareQuery is PrepareQuery with a record of what has been validated already. A
+// named fragment is one selection set shared by all of its spreads; without the
+// record it was validated again for every spread, which is exponential in the
+// nesting depth of fragments that spread each other more than once.
+func prepareQuery(ctx context.Context, typ Type, selectionSet *SelectionSet, prepared map[preparedKey]struct{}) error {
 	vh("prepare.visit")
+	if selectionSet != nil {
+		key := preparedKey{typ: typ, selectionSet: selectionSet}
+		if _, ok := prepared[key]; ok {
+			return nil
+		}
+		prepared[key] = struct{}{}
+	}
 	switch typ := typ.(type) {
 	case *Scalar:
 		if selectionSet != nil {
@@ -129,7 +150,7 @@ func PrepareQuery(ctx context.Context, typ Type, selectionSet *SelectionSet) err
 				if fragment.On != typString {
 					continue
 				}
-				if err := PrepareQuery(ctx, graphqlTyp, fragment.SelectionSet); err != nil {
+				if err := prepareQuery(ctx, graphqlTyp, fragment.SelectionSet, prepared); err != nil {
 					return err
 				}
 			}
@@ -182,22 +203,22 @@ func PrepareQuery(ctx context.Context, typ Type, selectionSet *SelectionSet) err
 
 			selection.ParentType = typ.Name
 
-			if err := PrepareQuery(ctx, field.Type, selection.SelectionSet); err != nil {
+			if err := prepareQuery(ctx, field.Type, selection.SelectionSet, prepared); err != nil {
 				return err
 			}
 		}
 		for _, fragment := range selectionSet.Fragments {
-			if err := PrepareQuery(ctx, typ, fragment.SelectionSet); err != nil {
+			if err := prepareQuery(ctx, typ, fragment.SelectionSet, prepared); err != nil {
 				return err
 			}
 		}
 		return nil
 
 	case *List:
-		return PrepareQuery(ctx, typ.Type, selectionSet)
+		return prepareQuery(ctx, typ.Type, selectionSet, prepared)
 
 	case *NonNull:
-		return PrepareQuery(ctx, typ.Type, selectionSet)
+		return prepareQuery(ctx, typ.Type, selectionSet, prepared)
 
 	default:
 		panic("unknown type kind")
